@@ -194,6 +194,9 @@ func cmdCheck(args []string) int {
 				unverified = append(unverified, label+": function not found in package (renamed or removed?)")
 				continue
 			} else {
+				if *update {
+					recordNames(d, n, e.funcs[n])
+				}
 				res, err = e.VerifyFunc(n)
 			}
 			if err != nil {
@@ -318,6 +321,7 @@ func cmdCheck(args []string) int {
 	}
 	var missing []string
 	if *update {
+		saveNamesSnapshot()
 		os.MkdirAll(filepath.Dir(expFile), 0o755)
 		data, _ := json.MarshalIndent(names, "", " ")
 		os.WriteFile(expFile, append(data, '\n'), 0o644)
